@@ -145,12 +145,45 @@ pub fn run_op(e: &mut Engine, log: &Log, host: &mut HostState, op: &str) -> Got 
             let st = e.verif_heap_stats();
             let mut l = log.lock().unwrap();
             for (slots, alloc_count, free) in st {
-                l.push(format!("slots<={}", if slots <= 1_500_000 { "bound" } else { "EXCEEDED" }));
+                // (policy ceiling: 25 600 slots doubled at most 10 times between two compactions, with slack)
+                l.push(format!("slots<={}", if slots <= 64_000_000 { "bound" } else { "EXCEEDED" }));
                 l.push(format!("accounting:{}", if alloc_count == free { "exact".to_string() } else { format!("alloc_count={alloc_count} free={free}") }));
                 // storage still marked reachable (the workloads that ask keep almost nothing alive)
                 l.push(format!("live:{}", if slots - free <= 2000 { "small".to_string() } else { format!("{}", slots - free) }));
             }
             Ok(Some(format!("{:?}", st)))
+        } else if let Some(rest) = op.strip_prefix("gc_rounds:") {
+            // gc_rounds:<k>:<source>  -- k times { run <source>; full collection; heap stats }.
+            // The collector's policy grows the heap at most full collections and compacts it every
+            // few: over enough rounds with a constant live set the slot count must come back down
+            // (min over the rounds small) and never pass the policy's ceiling (max bounded); after
+            // every collection the accounting is exact and only the live set is marked.
+            let (k, src) = rest.split_once(':').ok_or("bad gc_rounds")?;
+            let k: usize = k.parse().map_err(|_| "bad count".to_string())?;
+            let src = src.replace("@@", &host.uniq);
+            let (mut min, mut max, mut bad_acc, mut bad_live) = (usize::MAX, 0usize, 0usize, 0usize);
+            let mut series = Vec::new();
+            for _ in 0..k {
+                e.run(src.clone()).map_err(|x| x.to_string())?;
+                e.run("(#%gc-collect)".to_string()).map_err(|x| x.to_string())?;
+                let st = e.verif_heap_stats();
+                let total: usize = st.iter().map(|x| x.0).sum();
+                series.push(st[0].0);
+                // the value list is compacted to live + one chunk (25 600 slots) every RESET_LIMIT + 2 full
+                // collections; the vector list is only required to stay bounded
+                min = min.min(st[0].0);
+                max = max.max(total);
+                for (slots, alloc_count, free) in st {
+                    if alloc_count != free { bad_acc += 1; }
+                    if slots - free > 2000 { bad_live += 1; }
+                }
+            }
+            let mut l = log.lock().unwrap();
+            l.push(format!("min-slots:{}", if min <= 60_000 { "small".to_string() } else { min.to_string() }));
+            l.push(format!("max-slots:{}", if max <= 64_000_000 { "bounded".to_string() } else { max.to_string() }));
+            l.push(format!("accounting:{}", if bad_acc == 0 { "exact".to_string() } else { format!("{bad_acc} rounds off") }));
+            l.push(format!("live:{}", if bad_live == 0 { "small".to_string() } else { format!("{bad_live} rounds large") }));
+            Ok(Some(format!("{:?}", series)))
         } else if op == "unroot_all" {
             host.rooted.clear();
             Ok(None)
